@@ -16,12 +16,16 @@
      window's discrete cells (u8 arithmetic is exact, so this holds for the code's own
      numbers);
    * in BINARY32 arithmetic (what the code computes, f32_ops) the statement is FALSE for
-     ill-conditioned matrices: C08_ieee_refuted.  Not proved: the statement for binary32
+     ill-conditioned matrices: C08_ieee_refuted.  Proved for binary32: scale is monotone when
+     the sign bit of the factor is clear (C08_scale_monotone_f32), so the consequence clause
+     follows from the main clause (C08_threshold_transfer_f32); with the factor -0.0, which
+     to_discrete produces on zero matrices of mixed signs, it does not
+     (C08_threshold_transfer_f32_refuted_negzero).  Not proved: the main clause for binary32
      under the conditioning predicate [well_conditioned] (checked on every run by the
      correspondence harness instead). *)
 From Coq Require Import List ZArith QArith Bool Arith Lia.
 From LMBase Require Import Res ListX IEEE.
-From LMDisc Require Import DiscModel DiscProofs DiscKernels DiscIEEE.
+From LMDisc Require Import DiscModel DiscImplCheck DiscProofs DiscKernels DiscIEEE DiscImplProofs DiscF32Mono.
 Import ListNotations.
 
 (* (1) exact arithmetic: byte score of a window >= byte image of its real score *)
@@ -66,6 +70,31 @@ Theorem C08_check_sound :
     check_C08 N factor offset obs = true <->
     Forall (fun p => (scale_with N factor offset (snd p) <= fst p)%Z) obs.
 Proof. intros T N factor offset obs. split; [apply check_C08_sound|apply check_C08_complete]. Qed.
+
+(* the checker that judges the implementation's OWN images (dm.scale(real score of position i),
+   dm.scale(threshold j)) instead of recomputing scale with the model: it accepts exactly when
+   the statement holds of the observed numbers -- main clause sr_i <= b_i and consequence clause
+   t_j <= r_i -> st_j <= b_i, with <= the PartialOrd of the number type (IEEE <= for binary32) *)
+Theorem C08_check_impl_sound :
+  forall (T : Type) (N : NumOps T) (thr : list (T * Z)) (obs : list (Z * T * Z)),
+    check_C08_impl N thr obs = true <->
+    Forall (fun o => (snd o <= fst (fst o))%Z /\
+                     Forall (fun p => n_le N (fst p) (snd (fst o)) = true -> (snd p <= fst (fst o))%Z) thr) obs.
+Proof. exact @check_C08_impl_sound. Qed.
+
+(* ... and it demands nothing more than the property: in exact arithmetic the numbers of a
+   correct implementation pass, for every matrix, any windows and any thresholds *)
+Theorem C08_check_impl_only_demands_the_property :
+  forall (K : nat) (m : list (list xq)) (d : @dmat xq)
+         (ws : list (list nat)) (obs : list (Z * xq * Z)) (thr : list (xq * Z)),
+    Forall (fun row => Forall xq_finite (nonwild K row)) m ->
+    to_discrete xq_ops K m = Ok d ->
+    Forall2 (fun w o => real_wscore xq_ops m w = Ok (snd (fst o)) /\
+                        disc_wscore (d_data d) w = Ok (fst (fst o)) /\
+                        snd o = scale xq_ops d (snd (fst o))) ws obs ->
+    Forall (fun p => snd p = scale xq_ops d (fst p)) thr ->
+    check_C08_impl xq_ops thr obs = true.
+Proof. exact impl_check_holds_exact. Qed.
 
 (* (2) the u8 kernels.  AVX2 (lane-wise PSHUFB + saturating PADDUSB) = generic kernel
    (saturating Accumulate), for any discrete matrix with K <= 16 columns, any padding
@@ -151,6 +180,38 @@ Theorem C08_ieee_refuted :
     (b < sc)%Z /\ wc = false.
 Proof. exact ieee_refuted. Qed.
 
+(* (4) binary32: DiscreteMatrix::scale is monotone -- for ANY offset, on ALL inputs that compare
+   (infinities included), whenever the sign bit of the factor is clear (+0, positive, +inf, NaN):
+   each step (subtraction, division, floor, saturating cast) is a monotone rounding *)
+Theorem C08_scale_monotone_f32 :
+  forall (f o s t : F32.t),
+    factor_sign_clear f = true -> F32.le s t = true ->
+    (scale_with f32_ops f o s <= scale_with f32_ops f o t)%Z.
+Proof. exact scale_with_f32_mono. Qed.
+
+(* hence the consequence clause follows from the main clause in binary32 as well: a position
+   whose byte score is at least the image of its real score reaches the byte threshold derived
+   from every threshold that its real score meets *)
+Theorem C08_threshold_transfer_f32 :
+  forall (f o real t : F32.t) (b : Z),
+    factor_sign_clear f = true ->
+    (scale_with f32_ops f o real <= b)%Z ->
+    F32.le t real = true ->
+    (scale_with f32_ops f o t <= b)%Z.
+Proof. exact threshold_transfer_f32. Qed.
+
+(* ... and the sign condition is needed: to_discrete yields the factor -0.0 on a matrix of
+   zeros of mixed signs; the main clause holds at the position (sr <= b) and the matrix
+   satisfies the conditioning predicate, yet a threshold below the real score maps to a byte
+   threshold above the byte score (known finding F14b) *)
+Theorem C08_threshold_transfer_f32_refuted_negzero :
+  exists (m : list (list F32.t)) (s : list nat) (pos : nat) (t : F32.t) (b sr st : Z),
+    f32_finite_nonwild 5 m = true /\ (pos + length m <= length s)%nat /\
+    (* byte score, scale(real score), scale(t), t <= real score, well_conditioned, sign bit clear *)
+    f32_transfer_outcome m s pos t = Ok (b, sr, st, true, true, false) /\
+    (sr <= b)%Z /\ (b < st)%Z.
+Proof. exact transfer_f32_refuted_negzero. Qed.
+
 Check C08_discrete_overestimates :
   forall (K : nat) (m : list (list xq)) (d : @dmat xq) (w : list nat) (real : xq) (b : Z),
     Forall (fun row => Forall xq_finite (nonwild K row)) m ->
@@ -181,4 +242,13 @@ Example ex_discrete :
             /\ real_wscore xq_ops ex_matrix [0; 4; 0]%nat = Ok XNInf
   | _ => False
   end.
+Proof. vm_compute. repeat split; reflexivity. Qed.
+
+(* the checker on the implementation's own images rejects a scale that wraps below the minimum:
+   position with byte score 0 and real score 0.0, threshold -1.0 (below the minimum 0.0) whose
+   image is reported as 253 (= -3 modulo 256) instead of 0 *)
+Example ex_impl_check_rejects_wrap :
+  check_C08_impl f32_ops [(F32.of_bits 3212836864, 253%Z)] [(0%Z, F32.of_bits 0, 0%Z)] = false
+  /\ check_C08_impl f32_ops [(F32.of_bits 3212836864, 0%Z)] [(0%Z, F32.of_bits 0, 0%Z)] = true
+  /\ first_bad_impl f32_ops 0 [] [(0%Z, F32.of_bits 3212836864, 253%Z)] = Some (FailPos 0).
 Proof. vm_compute. repeat split; reflexivity. Qed.
